@@ -230,6 +230,19 @@ def glue_block(_b):
             d0, f0, _k, _ = _document(src)
             obs.append(static_ob(f"{b}/only_content.isotherm_built_from_modified_copy_of_a_read_table/point", dd == ds and _same_digest_arg(fd, fs) and not _same_digest_arg(fd, f0), '',
                                  backend='trace', replay={'kind': 'c05.history', 'case': 'derived_table'}))
+            # the order in which supplementary columns were handed over is not content
+            import pandas as _pd
+            import pygaps as _pg
+            base_cols = {'pressure': [0.1, 0.2, 0.3, 0.25], 'loading': [1.0, 2.0, 3.0, 2.5]}
+            extra = {'temperature_cell': [77.1, 77.2, 77.3, 77.2], 'enthalpy': [9.0, 8.0, 7.0, 7.5], 'dose': [1.0, 2.0, 3.0, 4.0]}
+            meta_ = {k: v for k, v in _mk('base').to_dict().items()}
+            docs_ = []
+            for order in (('temperature_cell', 'enthalpy', 'dose'), ('dose', 'enthalpy', 'temperature_cell'), ('enthalpy', 'dose', 'temperature_cell')):
+                iso_ = _pg.PointIsotherm(isotherm_data=_pd.DataFrame({**base_cols, **{c: extra[c] for c in order}}), pressure_key='pressure', loading_key='loading', **meta_)
+                docs_.append(_document(iso_))
+            same_ = all(d[0] == docs_[0][0] and _same_digest_arg(d[1], docs_[0][1]) for d in docs_[1:])
+            obs.append(static_ob(f"{b}/only_content.digest_argument_independent_of_supplementary_column_order/point", same_, '', backend='trace',
+                                 replay={'kind': 'c05.history', 'case': 'column_order'}))
             # pandas digests depend on the column type: every numeric (or boolean) column reaches the digest as float64
             for label, ch in (('as_stored', {}), ('integer_literals', {'ints': 'int'}), ('boolean_marks', {'branch_type': 'bool'})):
                 _d, fr_, _k, _ = _document(_mk('point', **ch))
